@@ -18,7 +18,8 @@
 (***************************************************************************)
 EXTENDS Integers, Sequences, FiniteSets, TLC, Json
 
-Containers == {"ndarray_F", "ndarray_C", "list", "csc", "csc_unsorted", "csc_idx64", "csr", "coo"}
+\* csc_explicit_zeros: a valid CSC matrix whose zeros are stored entries (X.multiply(mask), X.data[...] = 0)
+Containers == {"ndarray_F", "ndarray_C", "list", "csc", "csc_unsorted", "csc_idx64", "csc_explicit_zeros", "csr", "coo"}
 Dtypes == {"f64", "f32", "i64"}
 Entries == {"solve", "fit", "path"}
 SolveComps == { <<"AndersonCD", "Quadratic", "L1">>, <<"AndersonCD", "Logistic", "L1">>,
@@ -32,11 +33,11 @@ FitComps == {"Lasso", "WeightedLasso", "ElasticNet", "MCPRegression", "SparseLog
              "GroupLasso", "MultiTaskLasso", "GeneralizedLinearEstimator"}
 PathComps == {"Lasso", "ElasticNet", "MCPRegression"}
 
-IsSparse(c) == c \in {"csc", "csc_unsorted", "csc_idx64", "csr", "coo"}
+IsSparse(c) == c \in {"csc", "csc_unsorted", "csc_idx64", "csc_explicit_zeros", "csr", "coo"}
 \* what the documentation promises
 Expected(entry, c, d) ==
   IF entry = "solve"
-  THEN (IF c \in {"ndarray_F", "ndarray_C", "csc", "csc_unsorted", "csc_idx64"} /\ d = "f64" THEN "canon64"
+  THEN (IF c \in {"ndarray_F", "ndarray_C", "csc", "csc_unsorted", "csc_idx64", "csc_explicit_zeros"} /\ d = "f64" THEN "canon64"
         ELSE IF c = "list" \/ c \in {"csr", "coo"} \/ d # "f64" THEN "canon_or_refuse" ELSE "canon64")
   ELSE (IF d = "f32" THEN "canon32" ELSE "canon64")     \* estimators convert everything
 
